@@ -79,8 +79,19 @@ class Gen:
         if c == "dataenum":
             t, v, a = self.ty(s["e"])
             name = self.fresh("D")
-            self.defs.append("%s\npub enum %s { A(%s), B(%s) }" % (DER, name, t, t))
-            return name, "%s::B(%s)" % (name, v), {"r": [{"b": [0, 0, 0, 1]}, a]}
+            vk = s.get("vk", "newtype")
+            idx = {"b": [0, 0, 0, 1]}
+            if vk == "newtype":
+                self.defs.append("%s\npub enum %s { A(%s), B(%s) }" % (DER, name, t, t))
+                return name, "%s::B(%s)" % (name, v), {"r": [idx, a]}
+            if vk == "tuple2":
+                self.defs.append("%s\npub enum %s { A(%s, u8), B(%s, u8) }" % (DER, name, t, t))
+                return name, "%s::B(%s, 7u8)" % (name, v), {"r": [idx, {"r": [a, {"b": [7]}]}]}
+            if vk == "struct1":
+                self.defs.append("%s\npub enum %s { A { x: %s }, B { x: %s } }" % (DER, name, t, t))
+                return name, "%s::B { x: %s }" % (name, v), {"r": [idx, {"r": [a]}]}
+            self.defs.append("%s\npub enum %s { A { x: %s, y: u8 }, B { x: %s, y: u8 } }" % (DER, name, t, t))
+            return name, "%s::B { x: %s, y: 7u8 }" % (name, v), {"r": [idx, {"r": [a, {"b": [7]}]}]}
         if c == "dict":
             parts = [(f["c"],) + LEAF[f["c"]] for f in s["f"]]
             name = self.fresh("K")
